@@ -281,7 +281,7 @@ func TestCtor(t *testing.T) {
 	pbt.Main(t, pbt.Prop[CtorCase]{
 		ID: "C20", Name: "ctor",
 		Rule: "rapid-generated constructor calls: Linear/Exponential Value/Duration buckets with n in -2..200, starts/widths/factors incl. the rejection boundaries (0, 1, next-after-1, negatives) and results kept inside the numeric range; BucketPairs on 0..12 arbitrary finite bounds. Oracle: n bounds, b0=start, recurrence (exact iterated value or closed form within 1e-9 relative, durations +i ns), errors exactly for n<=0 / start<=0 / factor<=1, Must* panics iff error, caller slice unchanged, pairs equal the reference tiling. Non-trivial: n>=2 or a rejected argument tuple. Distinct: FNV-64 of the case JSON.",
-		Gen:  genCtor, Run: runCtor,
+		Gen:  genCtor, Run: runCtor, HangAfter: 20 * time.Second,
 	})
 }
 
@@ -635,7 +635,7 @@ func TestCache(t *testing.T) {
 	pbt.Main(t, pbt.Prop[CacheCase]{
 		ID: "C20", Name: "cache",
 		Rule: "rapid-generated sequences of 2..6 histogram creations under one root (root, a subscope and a tagged scope share the bucket cache) whose specifications are adversarial for the cache: identical, permuted, equal-sum perturbations (a+d,b-d) of bit patterns / nanoseconds, merged elements, duplicated bounds, and a value set and a duration set with identical element bits; samples on/next to bounds; then one report pass. Oracle: every histogram delivers and allocates exactly the reference tiling of its OWN spec, counts per bound match, spec handed to the reporter equals its own, caller slice unchanged. Non-trivial: two different specs with equal cache identity (seed + sum of 31*element) live under the root. Distinct: FNV-64 of the case JSON.",
-		Gen:  genCache, Run: runCache,
+		Gen:  genCache, Run: runCache, HangAfter: 20 * time.Second,
 	})
 }
 
